@@ -880,9 +880,20 @@ def check_merge_case(ctx, spec, report=True):
                 text = ("compiled hybrid circuit is not equivalent to the source (non-Gaussian gates replaced by generic "
                         "stand-ins; channel distance %.3g); class %s" % (channel_dist(src, dst), cls))
     if sig and sig.startswith("gaussian_merge:crash"):
-        sig = sig  # crashes are not family-specific except that clean families must stay clean
+        # crashes are not family-specific except that the clean families must stay clean
         if fam != "hybrid-multimode" and "IndexError" not in sig:
             sig += ":" + fam
+        elif "NetworkXUnfeasible" in sig and not spec.get("_variant"):
+            # the recorded cycle defect needs an INDIRECT dependency (>= 4 primitive commands); a cycle on a
+            # minimal circuit of <= 3 primitive commands (Gaussian; non-Gaussian; Gaussian) is a different defect
+            def same(s2, sig0=sig):
+                s2 = dict(s2, _variant=True)
+                return check_merge_case(ctx, s2, report=False)[0] == sig0
+            small = shrink(spec, same, max_steps=80)
+            ndec = len(compiler_db["gaussian_merge"]().decompose(build_program(small).circuit))
+            if ndec <= 3:
+                sig += ":direct-dependency"
+                text += " (minimal circuit has only %d primitive commands)" % ndec
     if sig and report:
         ctx.counterexample(sig, text, data)
     return sig, text, out
